@@ -14,8 +14,8 @@ pub struct C05;
 
 fn n_cases(tier: Tier) -> u64 {
     match tier {
-        Tier::Quick => 10_000,
-        Tier::Thorough => 300_000,
+        Tier::Quick => 80_000,
+        Tier::Thorough => 2_000_000,
     }
 }
 
